@@ -1,5 +1,5 @@
 """run every check against every benign change (candidates under /tmp/benign/C*/N and kept ones under selftest/benign/*):
-prints the checks that do not exit 0.   python3-vt tools/benign_matrix.py [--kept] [--only substr]"""
+prints the checks that do not exit 0.   python3-vt tools/benign_matrix.py [--kept] [--only substr [--merge]]"""
 import glob
 import json
 import os
@@ -60,6 +60,15 @@ def main():
                 for l in lines[:8]:
                     print("        " + l)
     print("false alarms: %d   analysis errors: %d   patches: %d" % (n1, n2, len(paths)))
+    if "--kept" in sys.argv and only and "--merge" in sys.argv:
+        # refresh only the selected patches in the frozen table
+        name = "raw.json" if os.environ.get("VCHECK_CHURN") == "0" else "expect.json"
+        path = os.path.join(HERE, "selftest", "benign", name)
+        table = json.load(open(path))
+        for sid, e in record.items():
+            own = sid.split("-")[0]
+            table[sid] = {pid: rc for pid, rc in e.items() if pid == own or rc != 0}
+        json.dump(table, open(path, "w"), indent=1, sort_keys=True)
     if "--kept" in sys.argv and not only:
         # keep only the checks whose verdict is worth re-checking: the property's own check and any check that did not stay silent
         slim = {}
